@@ -62,7 +62,11 @@ def run(ctx):
     f = ctx.fn(K + "ErrorUnknownField::add_alts")
     if f:
         asg = ctx.find_field_assigns(f, "did_you_mean", 1)
-        ctx.ob("C17.G.add-alts-shape", f.key, "two assignments", len(asg) == 2, "%d" % len(asg))
+        # both reasons to store are present, however the branches are laid out: nothing stored yet, or a closer match
+        alld = [d for blk, i, st in asg for d in ctx.pc_strs(f, blk)]
+        NEW = r"is_some\(.*did_you_mean\(self\.name, a2\)\)=True"
+        cover = any(ctx._sat(d, NEW) and ctx._sat(d, r"is_some\(self\.did_you_mean\)=False") for d in alld) and any(ctx._sat(d, NEW) and ctx._sat(d, r"Gt\(.*\.0, .*\.0\)=True") for d in alld)
+        ctx.ob("C17.G.add-alts-shape", f.key, "stores when empty and when closer", bool(asg) and cover, "%d assignments under %s" % (len(asg), [sorted(a[:80] for a in d) for d in alld]))
         for blk, i, st in asg:
             ctx.requires("C17.G.add-alts-only-improves", f, blk, "self.did_you_mean = Some(bna)", [r"is_some\(.*did_you_mean\(self\.name, a2\)\)=True", r"Gt\(.*\.0, .*\.0\)=True"],
                          alt=[[r"is_some\(.*did_you_mean\(self\.name, a2\)\)=True", r"is_some\(self\.did_you_mean\)=False"]])
